@@ -174,6 +174,19 @@ def call_impl(case, obj):
     from wavespectra.core.utils import smooth_spec
 
     if case["entry"] == "accessor":
+        import zlib
+
+        arr = spectrum_of(obj)
+        if isinstance(arr.variable._data, np.ndarray) and zlib.crc32(np.ascontiguousarray(arr.values).tobytes()) % 4 == 0:
+            # one accessor call in four: the object was smoothed once with the same windows while it held other values, then
+            # overwritten in place; what it returns now is the smoothing of what it holds now
+            real = np.array(arr.values, copy=True)
+            try:
+                arr.values[...] = np.flip(real, axis=arr.get_axis_num("freq")) * 0.5 + 1.0
+                obj.spec.smooth(freq_window=case["fw"], dir_window=case["dw"])
+            except Exception:
+                pass
+            arr.values[...] = real
         return obj.spec.smooth(freq_window=case["fw"], dir_window=case["dw"])
     return smooth_spec(obj, freq_window=case["fw"], dir_window=case["dw"])
 
